@@ -82,6 +82,8 @@ def cases(tier, seed):
                     "history": hist,
                     "k": int(rng.integers(1, 4)),
                     "seed": int(rng.integers(1 << 30)),
+                    # every scalar constructor option at a non-default value (zoo.nondefault_kwargs)
+                    "nondefault": bool((h + zoo.ALL.index(algo)) % 3 == 1),
                 }
                 if algo in zoo.HAS_SHARE_ENCODERS:
                     c["share_encoders"] = bool(rng.random() < 0.5) if h else True
@@ -95,6 +97,8 @@ def _build(case):
     from vf import agentops, zoo
 
     kw = {}
+    if case.get("nondefault"):
+        kw.update(zoo.nondefault_kwargs(case["algo"]))
     if "share_encoders" in case:
         kw["share_encoders"] = case["share_encoders"]
     agentops.seed_all(case["seed"])
@@ -374,12 +378,14 @@ def _max_lr(agent) -> float:
     return max(lrs) if lrs else 1e-3
 
 
-def _update_diffs(p, c, walk):
+def _update_diffs(p, c, walk, steps: int = 1):
     """Leaves that differ after parent and clone learned from the same batch under the same RNG state.
     Identical arithmetic is not bitwise reproducible between two objects (reduction order depends on memory
     layout), and Adam's m/(sqrt(v)+eps) amplifies 1e-7 gradient noise up to one full step for elements with
     tiny gradients.  So: optimizer moments (linear / quadratic in the gradient) must agree to 1e-4 relative,
-    step counters exactly, and weights / targets to within 2.1 learning rates."""
+    step counters exactly, and weights / targets to within 2.1 learning rates.  After `steps` > 1 consecutive learn
+    steps the weight noise of one step (up to a learning rate) feeds the next gradients (directly through weight-decay
+    / regularisation terms), so the moment tolerance grows with steps**2 and the weight tolerance with steps."""
     import torch
 
     LP, LC = walk.agent_leaves(p), walk.agent_leaves(c)
@@ -404,9 +410,9 @@ def _update_diffs(p, c, walk):
                      if k.startswith(opt_root + "/state[") and k.endswith("/" + kind) and isinstance(v, torch.Tensor) and v.numel()),
                     default=0.0,
                 )
-                tol = 1e-4 * max(scale, g) + 1e-12
+                tol = 1e-4 * steps * steps * max(scale, g) + 1e-12
             else:
-                tol = 2.1 * lr + 1e-6 + 1e-5 * scale
+                tol = 2.1 * lr * steps + 1e-6 + 1e-5 * scale
             if diff <= tol:
                 continue
             d = dict(d, tol=tol, scale=scale)
